@@ -66,9 +66,16 @@ structure DState where
   nPred : Nat := 0
   nDeadSkipped : Nat := 0
   msgs : Array String := #[]
+  nFailMsgs : Nat := 0
+  nDivMsgs : Nat := 0
 
+/-- messages are capped separately for divergences and predicate failures, so that a flood of one
+kind cannot hide the other -/
 def DState.say (s : DState) (m : String) : DState :=
-  if s.msgs.size < 400 then { s with msgs := s.msgs.push m } else s
+  if m.startsWith "FAIL" then
+    if s.nFailMsgs < 300 then { s with msgs := s.msgs.push m, nFailMsgs := s.nFailMsgs + 1 } else s
+  else
+    if s.nDivMsgs < 300 then { s with msgs := s.msgs.push m, nDivMsgs := s.nDivMsgs + 1 } else s
 
 def DState.diverge (s : DState) (what model impl : String) : DState :=
   ({ s with nDiv := s.nDiv + 1, dead := true }).say
